@@ -38,6 +38,14 @@ Union_(a, b)         == [x \in (DOMAIN a) \cup (DOMAIN b) |-> IF x \in DOMAIN b 
 
 AsPairs(a) == {<<k, a[k]>> : k \in DOMAIN a}
 
+(* construction from a listing of pairs (from_pairs, collect / FromIterator, *)
+(* From<[_; N]>): the pairs are inserted one after the other.  For a listing *)
+(* with pairwise distinct keys the result does not depend on its order       *)
+(* (LawFromSeq).                                                             *)
+RECURSIVE FromSeq(_)
+FromSeq(s) == IF s = << >> THEN Empty
+              ELSE Ins(FromSeq(SubSeq(s, 1, Len(s) - 1)), s[Len(s)][1], s[Len(s)][2])
+
 Init == m = Empty
 SmInsert(k, v) == m' = Ins(m, k, v)
 SmRemove(k)    == m' = Rem(m, k)
@@ -56,6 +64,8 @@ LawAssoc(D) == \A a, b, c \in BijsOn(D) :
 LawAssocAll(D) == \A a, b, c \in MapsOn(D) :
               ComposePartial(ComposePartial(a, b), c) = ComposePartial(a, ComposePartial(b, c))
 LawUnionCompat(D) == \A a, b \in MapsOn(D) : Compatible(a, b) => Union_(a, b) = Union_(b, a)
+Listings(X) == {s \in [1..Cardinality(X) -> X] : \A i, j \in DOMAIN s : s[i] = s[j] => i = j}
+LawFromSeq(D) == \A a \in MapsOn(D) : \A s \in Listings(AsPairs(a)) : FromSeq(s) = a
 LawIdentity(D) == \A a \in MapsOn(D) : ComposePartial(Identity(Keys(a)), a) = a
                                        /\ ComposePartial(a, Identity(Values(a))) = a
 =============================================================================
